@@ -30,7 +30,7 @@ Out of scope of the main results (decided on the MODEL alone, before the real co
   * steps at which the model itself is undefined (duplicate under 'error', several merge candidates,
     explicit id equal to a generated key = C05 known finding): the history is cut before such a step.
 
-Environment: inside a unit sqlite3.connect is wrapped to use a 0.2 s busy timeout and PRAGMA
+Environment: inside a unit sqlite3.connect is wrapped to use a 0.05 s busy timeout and PRAGMA
 synchronous=OFF (durability knobs only: a lock held by another connection of the same thread is never
 released while waiting, so outcomes are the same, only faster), and tempfile.tempdir points into the
 unit's private scratch directory so that every temp file of the library lands there and is removed.
@@ -65,7 +65,7 @@ def scratch():
 
     def connect(*a, **k):
         if len(a) < 2:
-            k.setdefault("timeout", 0.2)
+            k.setdefault("timeout", 0.05)
         c = orig(*a, **k)
         try:
             c.execute("PRAGMA synchronous=OFF")
@@ -73,11 +73,14 @@ def scratch():
             pass
         return c
     sqlite3.connect = connect
+    gc.collect()
+    gc.freeze()            # full collections (needed after every failed update) then only scan what the cases allocate
     try:
         yield d
     finally:
         sqlite3.connect = orig
         tempfile.tempdir = old_td
+        gc.unfreeze()
         gc.collect()
         shutil.rmtree(d, ignore_errors=True)
 
@@ -533,6 +536,7 @@ class Runner(object):
         self.fails = []
         self.nfail = 0
         self.cap = cap
+        self.stop_after = 60
         self.skipped = collections.Counter()
         self.sample = None
 
@@ -563,6 +567,8 @@ class Runner(object):
 
     def run(self, base, ops, backup=False):
         """main entry: the in-scope prefix of the history, step by step"""
+        if self.nfail >= self.stop_after:
+            return                                   # a broken tree: enough evidence, do not burn the time budget
         steps, cut_op, reason, _ = self.plan(base, ops)
         if reason:
             self.skipped[reason.split(":")[0]] += 1
@@ -649,6 +655,7 @@ def unit_histories(U_):
         if U_.thorough:
             plan = [(big, 3), (small, 4)]
         else:
+            small = [o for i, o in enumerate(small) if i not in (2, 10)]      # quick: without merge-into-g1 and the direct g1->exon_1 edge
             plan = [(big, 2), (small, 3)]
         for alpha, depth in plan:
             for seq in itertools.product(alpha, repeat=depth):
@@ -705,8 +712,6 @@ def unit_counters(U_):
                 continue
             for n in range(1, depth + 1):
                 for seq in itertools.product(alpha, repeat=n):
-                    if n < depth and seq[-1] is not R and not (n == 1):
-                        pass
                     run.run(base, list(seq) + [probe])
                     run.run(base, list(seq) + [R, probe])
         U_.bounded_result("C10.bounded.counters",
@@ -976,7 +981,8 @@ def backup_case(run, base, prefix, pre_model, op, must_fail, stale, explicit):
                     len(b), b == open(run.path, "rb").read(), got)
         # completeness: continue on the restored copy
         real.close()
-        gc.collect()
+        if got is not None:
+            gc.collect()
         shutil.copyfile(bak, run.path)
         real = Real(run.path)
         dd = diff(pre_model.snapshot(), real.snapshot())
@@ -993,7 +999,8 @@ def backup_case(run, base, prefix, pre_model, op, must_fail, stale, explicit):
         return None
     finally:
         real.close()
-        gc.collect()
+        if must_fail:
+            gc.collect()          # the creator of a failed update (and its connection) is only freed by the collector
 
 
 # --------------------------------------------------------------------------------------------------
@@ -1044,8 +1051,8 @@ def unit_deep_gtf(U_):
         U_.bounded_result("C10.bounded.deep_update",
                           "after an update on a GFF3 graph in which relations of any level compose to more than two first-level "
                           "edges do, level 2 still means exactly two first-level edges (database == model)",
-                          "all histories of length <= %d over 7 operations on 2 GFF3 bases (depth 3 and 4) that END in such an update"
-                          % (depth + 1), run.cases, run.fails, exhaustive=True, distinct=len(run.seen), sample=run.sample)
+                          "all histories of length <= %d over 7 operations on 2 GFF3 bases (depth 3 and 4) that END in such an update "
+                          "(%d of them deviate)" % (depth + 1, run.nfail), run.cases, run.fails, exhaustive=True, distinct=len(run.seen), sample=run.sample)
 
         # ---- GTF histories
         run = Runner(d)
@@ -1061,17 +1068,17 @@ def unit_deep_gtf(U_):
                 continue
             for seq in itertools.product(alpha, repeat=depth):
                 run.run(base, list(seq))
-            if U_.thorough:
-                small = [alpha[i] for i in (0, 1, 2, 5, 6, 7, 11)]
-                for seq in itertools.product(small, repeat=4):
+            small = [alpha[i] for i in (0, 1, 2, 5, 6, 7, 11)]
+            if U_.thorough or flags == (False, False):
+                for seq in itertools.product(small, repeat=depth + 1):
                     run.run(base, list(seq))
         U_.bounded_result("C10.bounded.gtf",
                           "GTF file database: features (lines and inferred transcripts / genes) and relations == reference model after "
                           "every step of an update/delete/add_relation/reopen history; generated keys never recycled",
-                          "all histories of length %d over 12 operations (5 updates as Feature lists / GTF text / GTF file that add "
+                          "all histories of length %d over 12 operations and of length %d over 7 of them (5 updates as Feature lists / GTF text / GTF file that add "
                           "subfeatures inside existing extents, new transcripts, new genes, non-subfeature lines, nothing; 4 deletes; 2 "
                           "add_relation; reopen) x %d disable_infer_* settings (same kwargs at every update); updates that would change an "
-                          "inferred extent are out of scope; cut: %s" % (depth, len(flagsets), dict(run.skipped)),
+                          "inferred extent are out of scope; cut: %s" % (depth, depth + 1, len(flagsets), dict(run.skipped)),
                           run.cases, run.fails, exhaustive=True, distinct=len(run.seen), sample=run.sample)
 
 
